@@ -548,6 +548,9 @@ def execute(plan: dict) -> dict:
                 fail("memory-budget", "%s: peak traced memory %d bytes" % (desc, res["peak"]), res)
                 break
             judged = "disco" not in name or (res["status"] == "exc" and not res.get("went_on"))
+            if res["follow"] is not None and res["follow"][0] not in ("ok", "exc"):
+                fail("unusable-after", "%s: the next request on the same client never completed (%s)" % (desc, res["follow"]), res)
+                break
             if judged and res["follow"] != base["follow"] and res["follow"] != lost["follow"]:
                 fail("unusable-after", "%s: the next request on the same client gave %r; in the unmutated run it gives %r, in "
                      "the run where that datagram is lost %r (mutated exchange ended with %s)" % (
